@@ -87,6 +87,21 @@ def check_buffer_api(ctx, E, T, Bs):
         if not bok.all():
             ctx.phi_fail("batches_rows_intact_under_negative_batch_axes", {**case, "batches_tags": bt},
                          key="c09:negative-axes-batches")
+    # sampling whole rows along ONE buffer axis (trajectories of an environment / time slices): distinct rows,
+    # every row an intact slice of the buffer
+    for axis, nrows in ((0, E), (1, T), (-1, T), (-2, E)):
+        if nrows < 2:
+            continue
+        for bs in sorted({1, nrows - 1, nrows}):
+            key = jr.key(int(ctx.rng.integers(0, 2**31)))
+            st, sok = _tags(buf.sample(bs, key=key, batch_axes=axis))
+            rows_ = [tuple(np.asarray(st[i]).ravel().tolist()) for i in range(st.shape[0])]
+            casep = {"kind": "sample-partial-axes", "E": E, "T": T, "batch_axes": axis, "batch_size": bs,
+                     "sampled_rows(tags)": [list(r[:6]) for r in rows_[:6]]}
+            ctx.case(casep, True)
+            ctx.count("sample:partial-axes")
+            if st.shape[0] != bs or len(set(rows_)) != bs or not sok.all():
+                ctx.phi_fail("sample_distinct_intact", casep, key="c09:sample-partial-axes")
     # resolve_axes
     for axes in [None, 0, 1, -1, -2, (0, 1), (1, 0), (-1, 0), (0, 0), (0, -2), (2,), (-3,), (0, 1, 1)]:
         try:
